@@ -127,6 +127,14 @@ def run(res, proofs_ok, proofs_why, only=None):
                             "why": st + ["(record status codes: 0 Unknown, 1 Synchronized, 2 FreeRunning; the clock reads NOW + offset while each message is processed)"]})
         status_of = lambda out: [x for k, x in enumerate(out.split()[1:]) if k % 7 == 6]
         diffs += [d for d in tdiffs if status_of(d["impl"]) != status_of(d["model"])]
+        # ... and only the clock at the time the report is processed: the writer on its own thread, already
+        # waiting at its mailbox (the clock reading earlier) when the report arrives
+        ldiffs, lbad = _updater.run_live("C08", res, rng, c.build_harness("debug")[0], 25 if res.tier == "quick" else 400)
+        for b in lbad:
+            st = [w for w in b["why"] if "status" in w]
+            if st:
+                bad.append({"case": b["case"], "equivalent_untimed": b["equivalent_untimed"], "impl": b["impl"], "model": b["model"], "why": st + b["why"][-1:]})
+        diffs += [d for d in ldiffs if status_of(d["impl"]) != status_of(d["model"])]
         # ... nor on the reports before it: histories of reports with different update intervals, leap codes and
         # ages through the real process_messages; once a measurement exists the status of every published
         # record is the class of the report it was published for, judged by the clauses above
